@@ -105,3 +105,12 @@ class Word:
 
     def __repr__(self):
         return "Word(%s)" % "".join(self.letters)
+
+
+class _Map(dict):
+    """A mapping keyed by integers and by tuples (mirrors MapGet of spec/Eval.tla)."""
+    _verif_kind = "map"
+    _verif_name = "m1"
+
+
+MAPS = {"m1": _Map({(1,): 7, 1: 9, (0, 1): 11})}
